@@ -49,6 +49,9 @@ type WDEvent struct {
 	Name     string         `json:"n,omitempty"` // index / user / role
 	Field    string         `json:"f,omitempty"`
 	Bad      string         `json:"bad,omitempty"` // malformed pack: empty | two | unknown
+	// PreRI: the source request already carries replication info (the source is itself a replication target):
+	// 1 = an empty info, 2 = another replication's info with a stale time
+	PreRI int `json:"pre_ri,omitempty"`
 }
 
 type WDScript struct {
@@ -108,6 +111,9 @@ func GenWD(rng *Rng, prop string) *WDScript {
 		seq++
 		ts += uint64(rng.Range(1, 20))
 		e.Seq, e.Ts = seq, ts
+		if e.Stream == "op" && rng.Pct(15) {
+			e.PreRI = rng.Range(1, 2)
+		}
 		sc.Events = append(sc.Events, e)
 	}
 	msgDB := func(d string) string {
@@ -592,7 +598,14 @@ func wdAPIEvent(e *WDEvent) *api.ReplicateAPIEvent {
 func wdOpMsg(e *WDEvent) msgstream.TsMsg {
 	base := msgstream.BaseMsg{BeginTimestamp: e.Ts, EndTimestamp: e.Ts, HashValues: []uint32{0}}
 	mb := func(t commonpb.MsgType) *commonpb.MsgBase {
-		return &commonpb.MsgBase{MsgType: t, Timestamp: e.Ts, SourceID: 1, MsgID: int64(e.Seq)}
+		b := &commonpb.MsgBase{MsgType: t, Timestamp: e.Ts, SourceID: 1, MsgID: int64(e.Seq)}
+		switch e.PreRI {
+		case 1:
+			b.ReplicateInfo = &commonpb.ReplicateInfo{}
+		case 2:
+			b.ReplicateInfo = &commonpb.ReplicateInfo{IsReplicate: true, ReplicateID: "another-replication", MsgTimestamp: 1}
+		}
+		return b
 	}
 	switch e.Kind {
 	case "createdb":
